@@ -24,6 +24,10 @@ import TracklibVerif.Drv.Util
   net <mode> <eps> <k> then k × (<xs> <ys> <uid> <tid> <base|_> <names> <cols> <rows> <no_data_value|_>)
                                 → `Network.simplify(eps, mode)` on a network whose k edges have these geometries (`netSimplify`):
                                   the k replies of `trkn` separated by ` | `, or the first error
+  coll <mode|_> <eps> <k> then k × (<xs> <ys> <uid> <tid> <base|_> <names> <cols> <rows> <no_data_value|_>)
+                                → `TrackCollection(tracks).simplify(eps, mode)` (`collSimplify`; mode `_` = the argument is not
+                                  given: the default `mode=1`): the k replies of `trkn` separated by ` | `, `_` for an empty
+                                  collection, or the first error
   mode <int>                    → which algorithm `simplify` dispatches to -/
 namespace TV.Drv.C16
 open TV.Simplify TV.Drv
@@ -125,9 +129,29 @@ def handleNet (args : List String) : String :=
     | _, _, _ => "bad-request"
   | _ => "bad-request"
 
+def handleColl (args : List String) : String :=
+  match args with
+  | m :: e :: k :: rest =>
+    let mode? : Option (Option Int) := if m == "_" then some none else m.toInt?.map some
+    match mode?, float? e, k.toNat? with
+    | some mode, some eps, some k =>
+      if rest.length != 9 * k then "bad-request" else
+      match parseGeoms k rest with
+      | some C =>
+        let r := match mode with
+          | none => collSimplify Float.sqrt big C eps          -- `collection.simplify(eps)`: the default mode
+          | some m => collSimplify Float.sqrt big C eps m
+        match r with
+        | .ok O => if O.isEmpty then "_" else " | ".intercalate (O.map showTrkN)
+        | .error e => showErr e
+      | none => "bad-request"
+    | _, _, _ => "bad-request"
+  | _ => "bad-request"
+
 def handle (cmd : String) (args : List String) : String :=
   match cmd, args with
   | "trk", _ => handleTrk args
+  | "coll", _ => handleColl args
   | "trkn", _ => handleTrkN args
   | "net", _ => handleNet args
   | "mode", [m] =>
